@@ -480,9 +480,72 @@ func c06ExtFails(r *eng.Run) {
 	r.Res.Nontrivial = fired >= 0
 }
 
+// c06Arena: two Writers of one process whose buffers are neighbouring parts
+// of one allocation of the application (NewWriterBuffer over arena[:n] and
+// arena[n:2n]: the first slice has the second one's memory as spare
+// capacity). The first grows (flushing disabled) while the second holds
+// unflushed bytes; each must still send exactly what it accepted.
+func c06Arena(r *eng.Run) {
+	r.SetEntry("Writer/shared-arena")
+	n := []int{32, 64, 128, 300}[r.T.Int(sim.LSize, 4)]
+	arena := make([]byte, 2*n)
+	client := r.T.Bool(sim.LSide)
+	st := ws.StateServerSide
+	if client {
+		st = ws.StateClientSide
+	}
+	p1, p2 := NewPipe(r, nil), NewPipe(r, nil)
+	w1 := wsutil.NewWriterBuffer(p1, st, ws.OpBinary, arena[:n])
+	w2 := wsutil.NewWriterBuffer(p2, st, ws.OpBinary, arena[n:])
+	w1.DisableFlush()
+	b := patBytes(5, 0, 1+r.T.Int(sim.LLen, w2.Size()))
+	a := patBytes(6, 0, w1.Size()+1+r.T.Int(sim.LLen, n))
+	rand.Seed(int64(r.T.U32(sim.LMisc)))
+	if _, err := w2.Write(b); err != nil {
+		r.Failf("unexpected_error", "second writer: Write: %v", err)
+	}
+	if r.T.Bool(sim.LHist) {
+		if _, err := w1.Write(a); err != nil { // grows
+			r.Failf("unexpected_error", "first writer: Write: %v", err)
+		}
+	} else {
+		if _, err := w1.ReadFrom(bytes.NewReader(a)); err != nil {
+			r.Failf("unexpected_error", "first writer: ReadFrom: %v", err)
+		}
+	}
+	if err := w2.Flush(); err != nil {
+		r.Failf("unexpected_error", "second writer: Flush: %v", err)
+	}
+	if err := w1.Flush(); err != nil {
+		r.Failf("unexpected_error", "first writer: Flush: %v", err)
+	}
+	for k, x := range []struct {
+		out  []byte
+		want []byte
+	}{{p1.Out, a}, {p2.Out, b}} {
+		fs, rest, err := ref.DecodeAll(x.out)
+		if err != nil || rest != 0 {
+			r.Failf("partial_frame_at_call_boundary", "writer %d over the shared arena: output is not whole frames (rest=%d err=%v)", k+1, rest, err)
+		}
+		var got []byte
+		for _, f := range fs {
+			got = append(got, f.Payload...)
+		}
+		if !bytes.Equal(got, x.want) {
+			r.Failf("payload_mismatch", "writer %d over the shared arena (buffers of %d bytes, client=%v) sent %d payload bytes that are not the %d it accepted%s", k+1, n, client, len(got), len(x.want), firstDiff(got, x.want))
+		}
+	}
+	r.Res.Nontrivial = true
+	r.Probe("two_writers_over_one_arena")
+}
+
 func C06(r *eng.Run) {
 	if r.T.Chance(sim.LEntry, 1, 6) {
 		c06WriteMessage(r)
+		return
+	}
+	if r.T.Chance(sim.LEntry, 1, 16) {
+		c06Arena(r)
 		return
 	}
 	if r.T.Chance(sim.LEntry, 1, 10) {
